@@ -171,6 +171,18 @@ def check(rep, F, tier, replay=None):
                         ada_ok = True
                     if min0 and coin1 and ((op in ("gt",) and edge == "0") or (op in ("le",) and edge != "0")):
                         ada_ok = True
+                if d["kind"] == "cmp3" and len(d["args"]) == 2:
+                    a0, a1 = d["args"]
+                    coin0 = has_origin(a0, call_origin("Value::coin")) or has_origin(a0, field_origin("utils::Value", "coin"))
+                    min1 = has_origin(a1, call_origin("utils::min_ada_for_output"))
+                    coin1 = has_origin(a1, call_origin("Value::coin")) or has_origin(a1, field_origin("utils::Value", "coin"))
+                    min0 = has_origin(a0, call_origin("utils::min_ada_for_output"))
+                    if (coin0 and min1 and mp.cmp3_implies(edge, "ge")) or (min0 and coin1 and mp.cmp3_implies(edge, "le")):
+                        ada_ok = True
+                    lsz = has_origin(a0, call_origin("Value::to_bytes")) or has_origin(a0, call_origin("Vec::<T, A>::len"))
+                    rmax = has_origin(a1, field_origin("TransactionBuilderConfig", "max_value_size"))
+                    if lsz and rmax and mp.cmp3_implies(edge, "le"):
+                        size_ok = True
             rep.inst("GATE-output", 2)
             if not size_ok:
                 rep.violation("GATE-output", "value-size", "add_output admits an output at %s without having passed the `value size <= max_value_size` comparison" % facts.loc_str(c.loc, fn), {"guards": [(g[1], g[2].get("op") or g[2].get("callee")) for g in guards]})
